@@ -280,6 +280,17 @@ func (g *gtrans) returnStmt(s *ast.ReturnStmt, e *genv) {
 		}
 		switch {
 		case lv != nil && lv.v != nil && lv.idx == "" && lv.v.ptr && lv.v.kind == g.ptrRes:
+			// which pointer is returned is not part of the generated definition: it must be
+			// the conventional one (the first pointer parameter of that type: the receiver
+			// z of a *Element method, the destination res of ToBigInt(res))
+			for _, pv := range g.pvars {
+				if pv.ptr && pv.kind == g.ptrRes {
+					if pv != lv.v {
+						g.fail(s, "returns the pointer %s; the pointer result must be %s", lv.v.name, pv.name)
+					}
+					break
+				}
+			}
 			if g.ptrResVal || (g.sum.retAlias != "" && g.sum.retAlias != lv.v.name) {
 				g.fail(s, "returns %s here and something else elsewhere", lv.v.name)
 			}
